@@ -20,7 +20,7 @@ TEXT = {
  'C08': RUNG1 + "Theorems: char-wise and byte-wise tables satisfying the invariants for the same UTF-8 patterns both equal the same byte-level specification on every valid UTF-8 haystack (overlapping, find, no-suffix, leftmost-longest), via a proof that the model decoder inverts UTF-8 encoding and the self-synchronisation lemma (occurrences start/end on character boundaries; nothing starts or ends inside a character); unmapped characters go to the root without table access. Pairs of B/C automata from identical inputs are compared directly on every run.",
  'C09': RUNG1 + "Theorem (full strength in the model): for EVERY well-formed automaton value, both variants, all kinds, every lawful fixed-width value type and arbitrary trailing bytes, deserialize(serialize a ++ rest) = (a, rest); re-serialisation reproduces the bytes; the kind byte tables and the width table are generated from the source and the kind round trip is re-proved against them. Tie K-serial: byte-identical images and restored tables for all value types incl. Empty, 128-bit and a user-defined type.",
  'C10': RUNG1 + "Theorems for ALL collections: the insertion phase (where all validation happens, incl. the leftmost-first early-return path and the D2 repair) succeeds iff the collection is valid; whole-pipeline model: success => valid, invalid => invalidArgument/duplicatePattern naming a present defect, never a panic. build_total (never a panic, for every collection, kind, variant, num_free_blocks) and build_ok_iff within the size limits are proved on the vacant-list invariant of the ring-buffer helper. Tie: K-build compares the outcome (Ok / error kind / panic) and the tables with the implementation on every generated collection, invalid ones at every position.",
- 'C11': RUNG1 + "Corollary of the Rung-1 theorems: any two tables satisfying the invariants for the same patterns give identical results for every method on every haystack; in the model num_states does not depend on num_free_blocks. Every multi-block pattern set is built with num_free_blocks in {1,2,3,4,16,64} (blocks evicted and closed), invariants evaluated on each, results and num_states compared across the group.",
+ 'C11': RUNG1 + "Corollary of the Rung-1 theorems: any two tables satisfying the invariants for the same patterns give identical results for every method on every haystack; in the model num_states does not depend on num_free_blocks. Every multi-block pattern set is built with num_free_blocks in {1,2,3,4,16,64,256} (blocks evicted and closed), invariants evaluated on each, results and num_states compared across the group.",
  'C12': RUNG1 + "Theorems for arbitrary tables (no invariant): for the three standard-kind iterators of both variants every returned match ends exactly at the number of bytes pulled so far, pulled counts are monotone, each item consumes a non-empty prefix of the remaining source once, and exhaustion pulls exactly |h| bytes. Tie: a counting source iterator records the pulled count after EVERY next() and is compared with the model; from_iter results compared with slice results.",
  'C13': RUNG1 + "Theorems: on tables satisfying tableInv+sizeInv a standard scan of n bytes takes at most 2n transitions (potential argument; char-wise 2 per character), never runs out of fuel; fail links lead to strictly shorter nodes and reach the root; output parents point strictly backwards (boundsInv). Termination of the leftmost kinds follows from Props/C03 (the iterator returns ok). Tie K-steps: the implementation's own loop counter (hook) equals the model's count on every scan; watchdog for hangs.",
  'C14': RUNG1 + "Theorems for ALL collections: the model build is a function (determinism) and, for standard and leftmost-longest kinds, building from any permutation yields the same automaton (trie insertion commutes, the code mapper is permutation-invariant, everything downstream is a function of the trie); a counter-example shows leftmost-first is rightly excluded. Ties: K-build (byte-identical tables), the harness's double builds and permuted builds. Residue: thread schedules are not modelled - purity is covered by the source scan (no interior mutability, &self only) and 4-thread runs compared with single-threaded results.",
